@@ -93,6 +93,7 @@ static void check_wf(int ncols, int nrows)
 		ASSERT(0 <= cnt && cnt <= NR && 0 <= beg && beg + ext_ <= used, "C06 wf: every column's extent lies inside the used region");
 		for (k = 0; k < NR + 1; k++) if (k < ext_) { ASSERT(!owned[beg + k], "C06 wf: column extents are pairwise disjoint"); owned[beg + k] = 1; }
 		for (k = 0; k < NR; k++) if (k < cnt) ASSERT(0 <= A->matind[beg + k] && A->matind[beg + k] < nrows, "C06 wf: row indices in range after the deletion");
+		if (cnt == 0) ASSERT(A->matind[beg] != -1, "C06 wf: the slot reserved for an empty column is marked in use (a free slot is -1: a neighbouring column would grow into it)");
 		nz += cnt;
 	}
 	for (i = 0; i < MAXSZ; i++) if (i >= used && i < A->matsize) ASSERT(A->matind[i] == -1, "C06 wf: the free tail is unused (all -1)");
